@@ -5,6 +5,7 @@ R2 every unbounded wait of the parent observes worker liveness
    (polling loops, blocking puts on bounded queues, joins on error paths)
 R3 no handler in a worker / serial sibling / stage swallows a processing error
 R4 context managers wrapped around the processing loops do not swallow exceptions
+R6 every exit-status test raises for every failing exit code of every worker (meaning of the test, finite domain)
 """
 import ast
 
@@ -26,7 +27,7 @@ EXPLANATION = (
 )
 
 MANIFEST = {
-    "technique": "static analysis: stage discovery, helper effect summaries, nullness-aware CFG path queries for must-inspect-exit-status and bounded waits, liveness of unbounded queues, handler-swallow analysis incl. context managers",
+    "technique": "static analysis: stage discovery, helper effect summaries, nullness-aware CFG path queries for must-inspect-exit-status and bounded waits, liveness of unbounded queues, handler-swallow analysis incl. context managers, finite-domain evaluation of the exit-status test (every failing exit code of every worker raises)",
     "text": "Decides on all paths of every parallel stage, worker and serial sibling the structural premises under which a processing error must surface in the caller (exit status inspected after join; liveness observed in every unbounded wait; no swallowing handler or context manager).",
     "note": "Trusted: a Python worker process that raises exits with a non-zero exitcode; Process.join/exitcode/is_alive contracts. Residual not covered: queue.join_thread() can block if all workers die with more than a pipe buffer of items pending.",
 }
@@ -45,6 +46,7 @@ def run(run):
     run.floor("C19.R2", 5)
     run.floor("C19.R3", 5)
     run.floor("C19.R4", 1)
+    run.floor("C19.R6", 1)
     seen_funcs = set()
     for st in stages:
         run.note_func(st.func)
@@ -64,6 +66,7 @@ def run(run):
                     run.note_func(f)
                     _r3_handlers(run, f, "serial path", [])
     _r4_context_managers(run, stages)
+    _r6_status_meaning(run)
 
 
 # ---------------------------------------------------------------------------
@@ -492,6 +495,131 @@ def _r4_context_managers(run, stages):
         else:
             run.holds("C19.R4", f, None, "generator context manager cannot discard an in-flight exception",
                       used_by=[s.name for s in users])
+
+
+FAILING_CODES = (1, 2, 255, -9, -11)
+
+
+def _r6_status_meaning(run):
+    """The *meaning* of every exit-status test: wherever the package raises depending on a worker's ``exitcode``,
+    the raise must be reached for every failing exit code (positive codes of an uncaught exception / sys.exit(n) and
+    the negative codes of a worker killed by a signal), for every worker of the list handed in.  The conditions are
+    the path conditions of the raise events, evaluated over exitcode in {1, 2, 255, -9, -11}; literals about anything
+    else than the exit code make the verdict UNDECIDED."""
+    from sa import sym, teval
+    project = run.project
+    n = 0
+    for f in project.py_funcs():
+        reads = [x for x in own_nodes(f.node) if isinstance(x, ast.Attribute) and x.attr == "exitcode" and isinstance(x.ctx, ast.Load)]
+        if not reads or not any(isinstance(x, ast.Raise) for x in own_nodes(f.node)):
+            continue
+        # only functions where a raise is control dependent on the exit status (same test as the effect summary uses)
+        # ... whose value (directly or through locals) reaches a test; a function that only logs the code is not a status test
+        tainted = set()
+        def mentions(e):
+            return any((isinstance(y, ast.Attribute) and y.attr == "exitcode") or (isinstance(y, ast.Name) and y.id in tainted) for y in ast.walk(e))
+        for _round in range(3):
+            for x in own_nodes(f.node):
+                if isinstance(x, ast.Assign) and mentions(x.value):
+                    for t in x.targets:
+                        tainted |= {y.id for y in ast.walk(t) if isinstance(y, ast.Name)}
+                elif isinstance(x, (ast.AnnAssign, ast.NamedExpr)) and x.value is not None and mentions(x.value):
+                    tainted |= {y.id for y in ast.walk(x.target) if isinstance(y, ast.Name)}
+        guarded = False
+        for x in own_nodes(f.node):
+            if isinstance(x, (ast.If, ast.While, ast.IfExp, ast.Assert)) and mentions(x.test):
+                guarded = True
+            if isinstance(x, ast.comprehension) and any(mentions(c) for c in x.ifs):
+                guarded = True
+            if isinstance(x, ast.Call) and dotted(x.func) in ("any", "all") and x.args and mentions(x.args[0]):
+                guarded = True
+        if not guarded:
+            continue
+        n += 1
+        run.note_func(f)
+        ev = sym.make_evaluator(project, f.module.name, [], inline_local=True)
+        try:
+            res = ev.run(f.node)
+        except Exception as e:  # pragma: no cover
+            run.undecided("C19.R6", f, None, "cannot evaluate the status helper: %s" % e, kind="status-test-unevaluated")
+            continue
+        raises = [e for e in res.events if e.kind == "raise" and not any(c == sym.FALSE and pol for c, pol in e.pc if c != "loop")]
+        subjects = set()
+        for e in raises:
+            for c, _pol in e.pc:
+                if c == "loop":
+                    continue
+                for t in sym.atoms_of(c) | _attr_terms(c):
+                    if t[0] == "attr" and t[2] == "exitcode":
+                        subjects.add(t)
+        if not raises or not subjects:
+            run.violated("C19.R6", f, reads[0], "no raise in %s is reachable under a condition on a worker's exit code: a failed worker is not reported"
+                         % f.short, kind="status-test-dead")
+            continue
+        if len(subjects) > 1:
+            run.undecided("C19.R6", f, reads[0], "several exit-status subjects: %s" % sorted(sym.show(t) for t in subjects), kind="status-test-subjects")
+            continue
+        subj = next(iter(subjects))
+        who = subj[1]
+        params = set(f.params())
+        each = who[0] == "elem" and who[1][0] == "sym" and who[1][1] in params
+        single = who[0] == "sym" and who[1] in params
+        if not (each or single):
+            kind_ = "status-test-not-every-worker" if who[0] in ("item", "sub", "last") or (who[0] == "elem" and who[1][0] in ("sub", "item")) else None
+            if kind_:
+                run.violated("C19.R6", f, reads[0], "the exit status is tested on %s only, not on every worker handed in" % sym.show(who), kind=kind_)
+            else:
+                run.undecided("C19.R6", f, reads[0], "cannot tell which workers %s ranges over" % sym.show(who), kind="status-test-subject-unknown")
+            continue
+        from sa import boolalg
+        disj = [boolalg.conj(e.pc) for e in raises]
+        cond = disj[0] if len(disj) == 1 else ("op", "or", tuple(disj))
+        bad = None
+        unk = None
+        def some_worker(t, rec):
+            # any(<test of w> for w in workers [if c]) for a list containing the failing worker: the test on that worker
+            arg = None
+            if t[0] == "op" and t[1] == "any" and t[2]:
+                arg = t[2][0]
+            elif t[0] == "call" and t[1] == ("sym", "any") and len(t[2]) == 1:
+                arg = t[2][0]
+            if arg is not None and arg[0] == "op" and arg[1] == "comp":
+                kind__, elt, _it, cnd = arg[2][:4]
+                if not (_it[0] == "sym" and _it[1] in params):
+                    return teval.UNKNOWN
+                v_ = rec(elt)
+                c_ = rec(cnd)
+                if v_ is teval.UNKNOWN or c_ is teval.UNKNOWN:
+                    return teval.UNKNOWN
+                return bool(v_) and bool(c_)
+            return NotImplemented
+        for code in FAILING_CODES:
+            v = teval.teval(cond, {subj: code}, hooks=[some_worker])
+            if v is teval.UNKNOWN:
+                unk = code
+            elif not v:
+                bad = code
+                break
+        if bad is not None:
+            run.violated("C19.R6", f, reads[0], "a worker that died with exit code %d is not reported: the raise is reached only under `%s`"
+                         % (bad, sym.show(cond)[:160]), kind="status-test-misses-code", code=bad)
+        elif unk is not None:
+            run.undecided("C19.R6", f, reads[0], "the raise also depends on something else than the exit code: `%s`" % sym.show(cond)[:200], kind="status-test-extra-condition")
+        else:
+            run.holds("C19.R6", f, reads[0], "raises for every failing exit code %s of every worker handed in" % (FAILING_CODES,), condition=sym.show(cond)[:200])
+    return n
+
+
+def _attr_terms(t, acc=None):
+    """All ('attr', x, name) sub-terms of a term (atoms_of stops at maximal atoms)."""
+    acc = set() if acc is None else acc
+    if isinstance(t, tuple):
+        if t and t[0] == "attr":
+            acc.add(t)
+        for x in t:
+            if isinstance(x, tuple):
+                _attr_terms(x, acc)
+    return acc
 
 
 def _r5_parallelism(run):
